@@ -410,7 +410,8 @@ def gen_lang(rng, n):
         spec = X.rand_spec(rng, M, allow_multichar=False) if (idx >= nexh and rng.random() < 0.6) else \
             {"route": "matrix", "M": M, "style": rng.choice(["alpha", "alphanum"])}
         Mx, _ = X.expected_matrix_and_names(spec)
-        yield {"M": Mx, "spec": spec, "style": spec.get("style", "alpha"), "L": oracle_L(len(M), tier)}
+        yield {"M": Mx, "spec": spec, "style": spec.get("style", "alpha"), "L": oracle_L(len(M), tier),
+               "buffer": rng.random() < 0.4, "order": rng.sample(range(3), 3)}
 
 
 def accepted(aut, names, L, even=False):
@@ -439,19 +440,33 @@ def run_lang(inp):
     from geometry_tools import coxeter
     M, L = inp["M"], inp["L"]
     n = len(M)
-    if "spec" in inp:
+    if "spec" in inp and inp["spec"]["route"] == "matrix" and inp.get("buffer"):
+        # the caller's array is edited in place after the group has been constructed
+        work = np.array(M)
+        G = coxeter.CoxeterGroup(matrix=work, generator_style=inp["style"])
+        work[...] = 2
+        np.fill_diagonal(work, 1)
+        names = X.expected_matrix_and_names(inp["spec"])[1]
+    elif "spec" in inp:
         G = X.build_group(inp["spec"])
         names = X.expected_matrix_and_names(inp["spec"])[1]       # prescribed by the input, not read from the library
     else:
         G = coxeter.CoxeterGroup(matrix=np.array(M), generator_style=inp["style"])
         names = list(G.ordered_gens)
+    # the three kinds of request are made on the same object in a random order
+    geo = lex = None
+    done, evs = True, None
     try:
-        geo = build_automaton(G, False)
-        lex = build_automaton(G, True)
+        for step in inp.get("order", [0, 1, 2]):
+            if step == 0:
+                geo = build_automaton(G, False)
+            elif step == 1:
+                lex = build_automaton(G, True)
+            else:
+                done, evs = X.limited(2 * EVEN_CPU_LIMIT, lambda: (G.automaton(shortlex=False, even_length=True),
+                                                                   G.automaton(shortlex=True, even_length=True)))
     except Skipped:
         return {"skipped": "large", "bad": {}}
-    done, evs = X.limited(2 * EVEN_CPU_LIMIT, lambda: (G.automaton(shortlex=False, even_length=True),
-                                                       G.automaton(shortlex=True, even_length=True)))
     A_geo, A_lex = accepted(geo, names, L), accepted(lex, names, L)
     if done:
         A_geo_e, A_lex_e = accepted(evs[0], names, L - L % 2, even=True), accepted(evs[1], names, L - L % 2, even=True)
